@@ -14,6 +14,8 @@ open Chartparse Chartparse.F64
 
 inductive Val where
   | int (n : Int) | flt (x : Rat) | bool (b : Bool) | td (us : Int) | none
+  | obj (key : List Bool)      -- an opaque object (a `Note` member …): only `==` / `!=` look at it, `key` names its equality class
+  | enum (name : String)       -- an enum member named in the source (`HOPOState.TAP`)
   deriving Repr, DecidableEq
 
 inductive BinOp where | add | sub | mul | truediv
@@ -33,11 +35,18 @@ inductive Expr where
   | abs (a : Expr)
   | totalSeconds (a : Expr)       -- `td.total_seconds()`
   | tdMicros (a : Expr)           -- `timedelta(microseconds=n)` for an int `n`: exact
+  | not (a : Expr)                -- on a bool
+  | and (a b : Expr)              -- on bools, short-circuit
+  | or (a b : Expr)               -- on bools, short-circuit
+  | isNone (a : Expr)             -- `a is None`
+  | const (name : String)         -- a dotted name that resolves to an enum member
   deriving Repr, DecidableEq
 
 inductive Stmt where
   | assign (x : String) (e : Expr)
   | ifRaise (c : Expr) (exc : PyErr)      -- `if c: raise Exc(...)`
+  | ifRet (c : Expr) (e : Expr)           -- `if c: return e`
+  | ifElseRet (c : Expr) (a b : Expr)     -- `if c: return a` / `else: return b`
   | ret (e : Expr)
   deriving Repr, DecidableEq
 
@@ -95,7 +104,17 @@ def evalBin (op : BinOp) (a b : Val) : M Val :=
       | _, _ => unsupported "operand types"
     else unsupported "operand types"
 
+/-- `==` / `!=` on values that only have equality -/
+def evalEq (op : CmpOp) (same : Bool) : M Val :=
+  match op with
+  | .eq => .ok (.bool same) | .ne => .ok (.bool (!same)) | _ => unsupported "ordering of objects"
+
 def evalCmp (op : CmpOp) (a b : Val) : M Val :=
+  match a, b with
+  | .obj x, .obj y => evalEq op (x == y)
+  | .enum x, .enum y => evalEq op (x == y)
+  | .bool x, .bool y => evalEq op (x == y)
+  | _, _ =>
   if !sameKind a b then unsupported "comparison types" else
   match numVal a, numVal b with
   | some x, some y =>
@@ -141,6 +160,22 @@ def evalExpr (env : Env) : Expr → M Val
     match v with
     | .int n => .ok (.td n)
     | _ => unsupported "timedelta(microseconds=float)"
+  | .not a => evalExpr env a >>= fun v =>
+    match v with
+    | .bool b => .ok (.bool (!b))
+    | _ => unsupported "not on a non-bool"
+  | .and a b => evalExpr env a >>= fun v =>
+    match v with
+    | .bool false => .ok (.bool false)
+    | .bool true => evalExpr env b >>= fun w => match w with | .bool c => .ok (.bool c) | _ => unsupported "and on a non-bool"
+    | _ => unsupported "and on a non-bool"
+  | .or a b => evalExpr env a >>= fun v =>
+    match v with
+    | .bool true => .ok (.bool true)
+    | .bool false => evalExpr env b >>= fun w => match w with | .bool c => .ok (.bool c) | _ => unsupported "or on a non-bool"
+    | _ => unsupported "or on a non-bool"
+  | .isNone a => evalExpr env a >>= fun v => .ok (.bool (v == .none))
+  | .const name => .ok (.enum name)
 
 /-- a function body: straight-line guards, assignments, one return -/
 def evalBody (env : Env) : List Stmt → M Val
@@ -150,6 +185,16 @@ def evalBody (env : Env) : List Stmt → M Val
     match v with
     | .bool true => .error exc
     | .bool false => evalBody env rest
+    | _ => unsupported "condition"
+  | .ifRet c e :: rest => evalExpr env c >>= fun v =>
+    match v with
+    | .bool true => evalExpr env e
+    | .bool false => evalBody env rest
+    | _ => unsupported "condition"
+  | .ifElseRet c a b :: _ => evalExpr env c >>= fun v =>
+    match v with
+    | .bool true => evalExpr env a
+    | .bool false => evalExpr env b
     | _ => unsupported "condition"
   | .ret e :: _ => evalExpr env e
 
@@ -162,6 +207,8 @@ def execBody (env : Env) : List Stmt → M Env
     | .bool true => .error exc
     | .bool false => execBody env rest
     | _ => .error (.internal "unsupported: condition")
+  | .ifRet _ _ :: _ => .ok env
+  | .ifElseRet _ _ _ :: _ => .ok env
   | .ret _ :: _ => .ok env
 
 /-- the value a name holds after the statements ran -/
